@@ -1,4 +1,6 @@
 import LiquidVerif.Lemmas.Inherit
+import LiquidVerif.Lemmas.InheritFlat
+import LiquidVerif.Lemmas.InheritAssign
 /-!
 # C18 — template inheritance resolves blocks to the most-derived definition
 
@@ -154,6 +156,11 @@ theorem dup_rejected_partial (lim : Nat) (ld : Loader) (name : String) (data : S
   simp only [renderTemplate, hl, hi, renderTops_pre, renderTops, hpre, buildFrom_reaches_dup hreach hdup []]
   rfl
 
+/-- `{% extends 'p' %}{% block a %}{% for i in (1..2) %}{{ block.super }}{% endfor %}{% endblock %}` -/
+def capChild : Template := ⟨[.ext "p", .node (.block "a" false [.loop "i" 2 [.super]])]⟩
+/-- `{% block a %}{{ i }}{% endblock %}` -/
+def capParent : Template := ⟨[.node (.block "a" false [.var "i"])]⟩
+
 /-- `{% block a %}x{% endblock %}{% block a %}y{% endblock %}` -/
 def dupTemplate : Template :=
   ⟨[.node (.block "a" false [.text "x"]), .node (.block "a" false [.text "y"])]⟩
@@ -238,6 +245,167 @@ theorem flatten_unbounded_example (lim : Nat) (data : Scope) :
 example : Linked [("c", invChild), ("p", invParent)] [] invChild [invChild, invParent] :=
   .step [] invChild "p" invParent _ (by decide) (by decide) (by decide) (by simp)
     (.root _ invParent (by decide) (by decide))
+
+/-! ### the purely syntactic flattening (deepening round) -/
+
+/-- `flatten` (the declarative reading) is the plain renderer applied to the *syntactically* flattened template:
+`flattenSyn lim chain` is computed from the templates alone (no render data, no scopes) and contains no
+`extends`, `block` or `block.super`. -/
+theorem flatten_eq_flattenSyn (lim : Nat) (chain : List Template) (data : Scope) :
+    flatten lim chain data = renderPlains none data (flattenSyn lim chain) :=
+  (render_eq_flat lim (defsOf chain)).2.2 0 none [] data (rootOf chain)
+
+/-- **Sentence 1, syntactic form**: rendering a leaf = rendering the block-free template `flattenSyn lim chain`
+(the root with every block replaced by its most-derived body, `block.super` inlined, nested blocks resolved
+again) with the plain renderer — for every chain, every nesting, every budget. Where the budget runs out the
+flattened template has a `raise contextDepth` node, exactly where the implementation's `context.copy` guard
+fires. -/
+theorem inherit_eq_flattenSyn (lim : Nat) (ld : Loader) (name : String) (data : Scope) (t : Template)
+    (pre : List Item) (p : String) (post : List Top) (ts : List Template)
+    (hl : lookup ld name = some t) (hi : t.items = pre.map .node ++ .ext p :: post)
+    (hc : Linked ld [] t ts) :
+    renderTemplate lim ld name data
+      = seqOut (renderPlains none data (flatItems lim (stackOf []) 0 [] pre))
+          (renderPlains none data (flattenSyn lim ts)) := by
+  rw [inherit_eq_flatten lim ld name data t pre p post ts hl hi hc, flatten_eq_flattenSyn,
+    (render_eq_flat lim (stackOf [])).2.2 0 none [] data pre]
+
+/-- **Finiteness condition.** `finiteWithin lim chain` (decidable: the flattened template has no
+`raise contextDepth` node) says the chain has a finite flattening inside the budget; then the render of the chain
+never fails with ContextDepthError and the flattened template is a genuine finite template. -/
+theorem finite_no_depth_error (lim : Nat) (chain : List Template) (data : Scope)
+    (h : finiteWithin lim chain = true) : flatten lim chain data ≠ .error .contextDepth := by
+  intro he
+  rw [flatten_eq_flattenSyn] at he
+  have := depth_error_needs_raise.2.1 none data _ he
+  simp [finiteWithin, this] at h
+
+/-- The condition is needed: the inverted-nesting chain of `flatten_unbounded_example` has no finite flattening
+within any budget. -/
+theorem flattenSyn_unbounded_example (lim : Nat) : finiteWithin lim [invChild, invParent] = false := by
+  cases h : finiteWithin lim [invChild, invParent] with
+  | false => rfl
+  | true => exact absurd (flatten_unbounded_example lim []) (finite_no_depth_error lim _ [] h)
+
+/-- **Plain Liquid.** When no `{{ block.super }}` is written under a `{% for %}` of the same block definition
+(`hygienics`, decidable on the flattened template) the scope annotations are redundant: the chain renders like
+the annotation-free template `eraseScopes (flattenSyn lim chain)`, which consists of text, variable output,
+`for` and raise nodes only — an ordinary template that needs no inheritance machinery at all. -/
+theorem inherit_eq_plain_template (lim : Nat) (chain : List Template) (data : Scope)
+    (hh : hygienics (flattenSyn lim chain) = true) :
+    flatten lim chain data = renderPlains none data (eraseScopes (flattenSyn lim chain)) := by
+  rw [flatten_eq_flattenSyn]
+  exact erase_scope_aux.2.1 none data _ hh (Or.inr (Or.inl rfl))
+
+/-- The hygiene hypothesis is needed: with `block.super` under a `for` whose variable the parent definition reads,
+the annotation-free inlining prints the loop variable where the implementation (and the model) print nothing.
+Child `{% block a %}{% for i in (1..2) %}{{ block.super }}{% endfor %}{% endblock %}`, parent
+`{% block a %}{{ i }}{% endblock %}`. -/
+theorem erase_scope_counterexample :
+    ¬ (∀ (lim : Nat) (chain : List Template) (data : Scope),
+        flatten lim chain data = renderPlains none data (eraseScopes (flattenSyn lim chain))) := by
+  intro h
+  have h1 := h 30 [capChild, capParent] []
+  have hd : defsOf [capChild, capParent] "a"
+      = [⟨false, [.loop "i" 2 [.super]]⟩, ⟨false, [.var "i"]⟩] := by rfl
+  have hr : rootOf [capChild, capParent] = [.block "a" false [.var "i"]] := by rfl
+  rw [flatten_eq_flattenSyn] at h1
+  unfold flattenSyn at h1
+  rw [hr] at h1
+  generalize defsOf [capChild, capParent] = res at hd h1
+  simp [flatItems, flatItem, hd, eraseScopes, eraseScope, renderPlains_cons, renderPlains_nil, renderPlain,
+    renderPlainLoop_succ, renderPlainLoop_zero, seqOut, lookupVar] at h1
+
+/-- root: `{% for i in (1..n) %}{% block a %}{{ i }}{% endblock %}{% endfor %}` -/
+def loopRoot (n : Nat) : Template := ⟨[.node (.loop "i" n [.block "a" false [.var "i"]])]⟩
+/-- child: `{% extends 'r' %}{% block a %}<{{ block.super }}>{% endblock %}` -/
+def loopChild : Template := ⟨[.ext "r", .node (.block "a" false [.text "<", .super, .text ">"])]⟩
+
+/-- `<n-k+1><n-k+2>…<n>` -/
+def loopOut (n : Nat) : Nat → String
+  | 0 => ""
+  | k + 1 => ("<" ++ (toString (n - k) ++ ">")) ++ loopOut n k
+
+/-- **A block inside a `for` whose `block.super` depends on the loop variable** (any number of iterations): the
+overriding definition and, through `block.super`, the parent definition are rendered afresh in every iteration,
+in the scope of the block tag — the parent's `{{ i }}` prints the current value each time (a cached super output,
+seeded change C18-2, would repeat the first one). -/
+theorem super_rerendered_per_iteration (lim n : Nat) (data : Scope) :
+    flatten lim [loopChild, loopRoot n] data = .ok (loopOut n n) := by
+  have hd : defsOf [loopChild, loopRoot n] "a"
+      = [⟨false, [.text "<", .super, .text ">"]⟩, ⟨false, [.var "i"]⟩] := by rfl
+  have hr : rootOf [loopChild, loopRoot n] = [.loop "i" n [.block "a" false [.var "i"]]] := by rfl
+  unfold flatten
+  rw [hr]
+  generalize defsOf [loopChild, loopRoot n] = res at hd
+  have key : ∀ k, renderLoop lim res 0 none [] data "i" n [.block "a" false [.var "i"]] k = .ok (loopOut n k) := by
+    intro k
+    induction k with
+    | zero => rw [renderLoop]; rfl
+    | succ k ih =>
+      rw [renderLoop, ih]
+      simp [renderItems_cons, renderItems_nil, renderItem, hd, seqOut, lookupVar, loopOut]
+  rw [renderItems_cons, renderItem, key n, renderItems_nil]
+  simp [seqOut]
+
+/-! ### assign / capture inside blocks (deepening round) -/
+
+/-- **A block is its own scope — the part that holds.** When the most-derived definition of a block has no
+`{{ block.super }}` at its top level, rendering the block tag leaves every live context's locals exactly as they
+were: whatever the definition (and the blocks nested in it, and their supers) assign is gone when the block ends.
+Holds in both modes (`m`), at any depth, for any resolver. -/
+theorem block_assign_scoped_partial (lim : Nat) (res : String → List ADef) (globals : Scope) (depth : Nat)
+    (m : Bool) (parents : List ADef) (fr : Frames) (name : String) (body : List AItem) (d : ADef) (ds : List ADef)
+    (out : String) (fr' : Frames)
+    (hd : res name = d :: ds) (hnt : noTopSupers d.body = true) (hs : Sized m fr)
+    (h : arenderItem lim res globals depth m parents fr (.block name body) = .ok (out, fr')) : fr' = fr := by
+  rw [arenderItem] at h
+  simp only [hd] at h
+  split at h
+  · cases h
+  · split at h
+    · cases h
+    · rename_i o r hok
+      cases h
+      have hne : 1 ≤ fr.length := by cases m <;> simp [Sized] at hs <;> omega
+      have := assign_frames.2 (depth + 1) true ds ([] :: fr) d.body (by simp [Sized]; omega) _ _ hok
+      simpa using (this.2.2 rfl).2 hnt
+
+/-- **… and the part that does not**: "a block never changes the locals of the context it stands in" is false as
+soon as the definition calls `block.super`: the parent definition runs on the block tag's own context
+(`BlockDrop.context`, via `extend`), so its `assign` survives the block. Witness: child
+`{% block a %}{{ block.super }}{% endblock %}`, parent `{% block a %}{% assign x = 'R' %}{% endblock %}`;
+replayed on the implementation as the known finding `assign-leak|super`. -/
+theorem block_assign_scoped_counterexample :
+    ¬ (∀ (lim : Nat) (res : String → List ADef) (globals : Scope) (depth : Nat) (m : Bool) (parents : List ADef)
+        (fr : Frames) (name : String) (body : List AItem) (out : String) (fr' : Frames), Sized m fr →
+        arenderItem lim res globals depth m parents fr (.block name body) = .ok (out, fr') → fr' = fr) := by
+  intro h
+  have := h 30 (fun _ => [⟨[.super]⟩, ⟨[.assign "x" "R"]⟩]) [] 0 false [] [[]] "a" [] "" [[("x", "R")]]
+    (by simp [Sized])
+    (by simp [arenderItem, arenderItems, assignHead])
+  simp at this
+
+/-- The same root, three renders: directly (`<R>`), extended by a child that overrides nothing (`<>`), extended
+by a child whose block only calls `block.super` (`R`-leak: `<R>`). Root:
+`{% block a %}{% assign x = 'R' %}{% endblock %}<{{ x }}>`. -/
+theorem assign_scope_depends_on_override (lim : Nat) :
+    let root : List AItem := [.block "a" [.assign "x" "R"], .text "<", .var "x", .text ">"]
+    arenderChain lim [root] [] = .ok ("<R>", [[("x", "R")]]) ∧
+    arenderChain lim [[], root] [] = .ok ("<>", [[]]) ∧
+    arenderChain lim [[.block "a" [.super]], root] [] = .ok ("<R>", [[("x", "R")]]) := by
+  refine ⟨?_, ?_, ?_⟩
+  · simp [arenderChain, arenderItems, arenderItem, assignHead, lookupFrames]
+  · have hd : adefsOf [[], [AItem.block "a" [.assign "x" "R"], .text "<", .var "x", .text ">"]] "a"
+        = [⟨[.assign "x" "R"]⟩] := by rfl
+    simp only [arenderChain]
+    generalize adefsOf [[], [AItem.block "a" [.assign "x" "R"], .text "<", .var "x", .text ">"]] = res at hd
+    simp [arenderItems, arenderItem, hd, assignHead, lookupFrames, lookupVar]
+  · have hd : adefsOf [[AItem.block "a" [.super]], [AItem.block "a" [.assign "x" "R"], .text "<", .var "x", .text ">"]] "a"
+        = [⟨[.super]⟩, ⟨[.assign "x" "R"]⟩] := by rfl
+    simp only [arenderChain]
+    generalize adefsOf [[AItem.block "a" [.super]], [AItem.block "a" [.assign "x" "R"], .text "<", .var "x", .text ">"]] = res at hd
+    simp [arenderItems, arenderItem, hd, assignHead, lookupFrames]
 
 /-! ### non-vacuity: the hypotheses of the theorems are met by concrete chains -/
 
